@@ -434,4 +434,6 @@ class Lib:
         e = self.e
         if base.t[0] == "conclist" and idx.conc is not None:
             return [(st, base.z[idx.conc])]
+        if base.t[0] == "ref" and base.t[1] == "Address" and idx.conc in (0, 1):
+            return [(st, e.load_field(st, base, "host" if idx.conc == 0 else "portno", node))]
         raise Unsupported(f"subscript on {tstr(base.t)}", node, e.path)
